@@ -17,9 +17,10 @@ def pct(s):
 
 
 def rand_circuit(rng, n_in=None, n_gates=None, n_out=None, n_ff=None, style=None, p_unconn=0.1,
-                 p_direct=0.2, allow_consts=True, two_out_ff=True, p_dangling=0.1, xor_bias=0.0, p_orphan_ff=0.12, p_forkchain=0.12, p_const=0.04):
+                 p_direct=0.2, allow_consts=True, two_out_ff=True, p_dangling=0.1, xor_bias=0.0, p_orphan_ff=0.12, p_forkchain=0.12, p_const=0.04, p_wide=0.0):
     """returns a kyupy Circuit. style 'v': ports are cells 'input'/'output' around forks (Verilog reader style);
-    style 'b': ports are forks (bench reader style)."""
+    style 'b': ports are forks (bench reader style).  p_wide > 0: gates with 5..9 input pins (and/nand/or/nor/xor/xnor kinds) —
+    OUTSIDE the arity domain `Net.arityOKB` of the theorems (known finding D33); no random number is drawn for it when p_wide = 0."""
     from kyupy.circuit import Circuit, Node, Line
     n_in = n_in if n_in is not None else rng.randint(1, 6)
     n_gates = n_gates if n_gates is not None else rng.randint(1, 25)
@@ -59,6 +60,10 @@ def rand_circuit(rng, n_in=None, n_gates=None, n_out=None, n_ff=None, style=None
             kind = rng.choice(KINDS[ar])
             if xor_bias and rng.random() < xor_bias and ar >= 2:
                 kind = rng.choice(['XOR', 'XNOR']) + str(ar)      # transition-rich circuits (long waveforms, overflows)
+            if p_wide and rng.random() < p_wide:
+                ar = rng.randint(5, 9)
+                fam = rng.choice(['AND', 'NAND', 'OR', 'NOR', 'XOR', 'XNOR'])
+                kind = rng.choice([fam, fam.lower(), f'{fam}{ar}'])
         node = Node(c, f'g{g}', kind)
         for pin in range(ar):
             if rng.random() < p_unconn and not (ar == 1):
@@ -103,6 +108,60 @@ def rand_circuit(rng, n_in=None, n_gates=None, n_out=None, n_ff=None, style=None
                 b = Node(c, f'o{o}', 'BUF1'); Line(c, src, b)
                 f = Node(c, f'o{o}'); Line(c, b, f); c.io_nodes.append(f)
     return c
+
+
+def has_wide(c):
+    """some node that is neither fork nor state element has more than four input pin slots (outside `Net.arityOKB`)"""
+    return any(len(n.ins) > 4 for n in c.nodes
+               if n.kind != '__fork__' and 'dff' not in n.kind.lower() and 'latch' not in n.kind.lower())
+
+
+# n-ary ground truth (audit finding 1 / known finding D33): gate-by-gate evaluation in which a variadic kind folds its operator over
+# ALL input pins.  Independent of the Lean evaluator and of kyupy's tables; unconnected pins read 0, a variadic gate has at least
+# two operand slots.
+_VARIADIC = {'and': lambda x: int(all(x)), 'nand': lambda x: 1 - int(all(x)), 'or': lambda x: int(any(x)), 'nor': lambda x: 1 - int(any(x)),
+             'xor': lambda x: sum(x) & 1, 'xnor': lambda x: 1 - (sum(x) & 1)}
+_FIXED = {'isolor': lambda a: a[0] | a[1], 'not': lambda a: 1 - a[0], 'inv': lambda a: 1 - a[0], 'ibuf': lambda a: 1 - a[0],
+          '__const1__': lambda a: 1, 'tieh': lambda a: 1, 'buf': lambda a: a[0], 'nbuf': lambda a: a[0], 'delln': lambda a: a[0],
+          '__const0__': lambda a: 0, 'tiel': lambda a: 0,
+          'ao21': lambda a: (a[0] & a[1]) | a[2], 'aoi21': lambda a: 1 - ((a[0] & a[1]) | a[2]),
+          'oa21': lambda a: (a[0] | a[1]) & a[2], 'oai21': lambda a: 1 - ((a[0] | a[1]) & a[2]),
+          'ao22': lambda a: (a[0] & a[1]) | (a[2] & a[3]), 'aoi22': lambda a: 1 - ((a[0] & a[1]) | (a[2] & a[3])),
+          'oa22': lambda a: (a[0] | a[1]) & (a[2] | a[3]), 'oai22': lambda a: 1 - ((a[0] | a[1]) & (a[2] | a[3])),
+          'ao211': lambda a: (a[0] & a[1]) | a[2] | a[3], 'aoi211': lambda a: 1 - ((a[0] & a[1]) | a[2] | a[3]),
+          'oa211': lambda a: (a[0] | a[1]) & a[2] & a[3], 'oai211': lambda a: 1 - ((a[0] | a[1]) & a[2] & a[3]),
+          'mux21': lambda a: a[1] if a[2] else a[0]}
+
+
+def nary_gate(lkind, xs):
+    fams = [f for f in list(_VARIADIC) + list(_FIXED) if lkind.startswith(f)]
+    if not fams: return None
+    f = max(fams, key=len)
+    if f in _VARIADIC: return _VARIADIC[f](list(xs) + [0] * (2 - len(xs)))
+    return _FIXED[f](list(xs) + [0] * (4 - len(xs)))
+
+
+def nary_captures(c, assign):
+    """assign: 0/1 per s_nodes position.  returns per position the captured value (None where nothing is captured / unknown kind)"""
+    spos = {id(n): i for i, n in enumerate(c.s_nodes)}
+    memo = {}
+
+    def lv(l):
+        if l is None: return 0
+        if l.index in memo: return memo[l.index]
+        d = l.driver; lk = d.kind.lower()
+        if id(d) in spos and ('dff' in lk or 'latch' in lk):
+            v = 1 - assign[spos[id(d)]] if ('dff' in lk and l.driver_pin == 1) else assign[spos[id(d)]]
+        elif d.kind == '__fork__':
+            if len(d.ins) > 0 and d.ins[0] is not None: v = lv(d.ins[0])
+            else: v = assign[spos[id(d)]] if id(d) in spos else 0
+        elif id(d) in spos: v = assign[spos[id(d)]]
+        else:
+            v = nary_gate(lk, [lv(x) for x in d.ins])
+            if v is None: raise KeyError(d.kind)
+        memo[l.index] = v
+        return v
+    return [lv(n.ins[0]) if len(n.ins) > 0 and n.ins[0] is not None else None for n in c.s_nodes]
 
 
 def dump_net(c):
